@@ -118,6 +118,8 @@ def find_powershell_strings(data: bytes) -> list[Node]:
         deobfuscated, obfuscation = deobfuscate_cmd(powershell)
         cmd_node = Node("shell.cmd", deobfuscated, obfuscation, start, end) if obfuscation else None
         if enc:
+            if len(deobfuscated.split()) < 2:
+                continue  # no separate encoded argument left after de-escaping
             pwsh_invocation, encoded = deobfuscated.rsplit(maxsplit=1)
             encoded = encoded.strip(b"'\"")
             if len(encoded) % 4 or b"^" in encoded:
